@@ -97,8 +97,8 @@ Definition cert_coin (c : cert) : option N :=
    [true] = the code as it is today.  Once fixes/C20-*.patch is committed in /repo, set the
    corresponding constant to [false]: model, known-class predicates and judge follow; every
    theorem of Props/C20.v is proved for both values. *)
-Definition helper_refunds_pool_retirement : bool := true.
-Definition helper_ignores_proposals : bool := true.
+Definition helper_refunds_pool_retirement : bool := false.
+Definition helper_ignores_proposals : bool := false.
 
 (* ---------------------------------------------------------------------------------------------
    Iterator::try_fold / `for … { x = x.checked_add(..)? }` : left to right, stop at the first error *)
